@@ -270,6 +270,7 @@ CONTEXTS = [
     ("", "", 1, "q"), ("", "", 2, "q"), ("", "", 3, "t"), ("a", "b", 1, "q"), ("\\", "", 1, "q"), ("\\", "", 2, "q"), ("a\\", "b", 1, "q"), ("", "\\n", 1, "q"),
     ("\\u", "", 1, "q"), ("\\u", "", 2, "q"), ("\\u", "", 3, "t"), ("\\u00", "", 2, "q"), ("\\u", "41", 2, "q"), ("\\u0", "1", 2, "q"), ("\\u", "", 4, "t"),
     ("\\uD8", "\\uDC00", 2, "q"), ("\\uD83D\\uDE", "", 2, "q"), ("\\uD83D\\u", "00", 2, "q"), ("\\uD83D", "\\uDE00", 2, "q"), ("\\uD83D\\", "DE00", 1, "q"), ("\\uD83D\\u", "", 4, "t"), ("\\u", "\\uDE00", 4, "t"),
+    ("\\u12", "", 1, "q"), ("\\u123", "", 1, "q"), ("\\u1", "", 1, "q"), ("\\u1", "", 2, "q"), ("\\uD83D\\uDE0", "", 1, "q"), ("\\uD83D\\uDE", "", 1, "q"), ("\\u004", "b", 1, "q"),
     ("\\uDC", "", 2, "q"), ("\\uD83D", "", 1, "q"), ("\\uD83D", "", 2, "q"), ("\\uD83D\\uDE00", "", 1, "q"),
 ]
 
